@@ -414,6 +414,13 @@ class CallListerVisitor(ast.NodeVisitor):
                 marker = self.namespace.get(instance.id)
                 if isinstance(marker, Arg):
                     marker.tainted = node
+            # so does handing a parameter over as an argument
+            for arg in node.args + [
+                    kw.value for kw in node.keywords if kw.arg is not None]:
+                if (
+                        isinstance(arg, ast.Name)
+                        and isinstance(self.namespace.get(arg.id), Arg)):
+                    self.visit(arg)
             self.to_revisit.append((node, self.namespace))
 
     def __iter__(self):
